@@ -118,6 +118,7 @@ VALUES = [
     ('parented-elsewhere', 't'),
     ('parented-in-tree', '{IN}'),
     ('detached', 's'),
+    ('fresh-holding-parented', 'pg.Dict(w=t, u=[t])'),
 ]
 CORE_VALUES = ('fresh', 'parented-in-tree', 'detached')
 _FN = ('lambda k, v: pg.Dict(rb=pg.Dict(q=1)) if isinstance(v, int) else v, '
@@ -164,6 +165,8 @@ def list_ops(L, intree, core_target=False):
         f'{L}.rebind({{0: pg.Insertion({v})}}, skip_notification=True)')
     add('rebind-set@notify_parents_off', vl,
         f'{L}.rebind({{0: {v}}}, notify_parents=False)')
+    add('rebind-insert@notify_parents_off', vl,
+        f'{L}.rebind({{0: pg.Insertion({v})}}, notify_parents=False)', f)
     add('insert@notify_off', vl,
         f'with pg.notify_on_change(False): {L}.insert(0, {v})')
     add('setitem@notify_off', vl,
@@ -333,6 +336,10 @@ def whole_tree_ops():
   add('clone', 'shallow', 'r0 = r\nr = r.clone()', True)
   add('clone', 'copy.copy', 'r0 = r\nr = copy.copy(r)')
   add('clone', 'copy.deepcopy', 'r0 = r\nr = copy.deepcopy(r)')
+  add('clone', 'nested-node-deep',
+      'r0 = r\nr = next(v for v in r.sym_values() if isinstance(v, pg.Symbolic)).clone(deep=True)')
+  add('clone', 'nested-node-shallow',
+      'r0 = r\nr = copy.copy(next(v for v in r.sym_values() if isinstance(v, pg.Symbolic)))')
   add('from_json', 'roundtrip', 'r0 = r\nr = pg.from_json(pg.to_json(r))', True)
   add('from_json', 'str-roundtrip',
       'r0 = r\nr = pg.from_json_str(pg.to_json_str(r))')
@@ -895,13 +902,13 @@ def drv_histories_exhaustive(tier, seed):
       'C01', 'tree well-formedness after every step of short histories',
       scope=('4 trees (mixed Dict/List/Object, Object root, List root, typed '
              'Object with value specs); alphabet = every list/dict/object '
-             'mutator x 8 value classes x every container of the tree '
+             'mutator x 9 value classes x every container of the tree '
              f'({sizes} statements, of which core: {cores}); all histories of '
              'length 1; length 2: '
-             + ('core x core restricted to pairs with (j - i) % 9 == seed % 9'
+             + ('core x core restricted to pairs with (j - i) % 12 == seed % 12'
                 if quick else
-                'core x core, all x core[::5], core[::5] x all; length 3: '
-                'core[::6]^3')))
+                'core x core, non-core x core[seed%16::16] and the converse; '
+                'length 3: core[seed%8::8]^3')))
   with _Watchdog(10) as wd:
     _initial_trees(rec)
     for kind in TREES:
@@ -910,17 +917,17 @@ def drv_histories_exhaustive(tier, seed):
       if quick:
         _enumerate(rec, kind, ops, [], wd=wd)
         _enumerate(rec, kind, core,
-                   lambda i: core[(i + seed) % 9::9],  # pylint: disable=cell-var-from-loop
+                   lambda i: core[(i + seed) % 12::12],  # pylint: disable=cell-var-from-loop
                    wd=wd, record_first=False)
       else:
         _enumerate(rec, kind, ops, [], wd=wd)
         _enumerate(rec, kind, core, core, wd=wd, record_first=False)
         noncore = [o for o in ops if not o.core]
-        _enumerate(rec, kind, noncore, core[(seed % 5)::5], wd=wd,
+        _enumerate(rec, kind, noncore, core[(seed % 16)::16], wd=wd,
                    record_first=False)
-        _enumerate(rec, kind, core[(seed % 5)::5], noncore, wd=wd,
+        _enumerate(rec, kind, core[(seed % 16)::16], noncore, wd=wd,
                    record_first=False)
-        small = core[(seed % 6)::6]
+        small = core[(seed % 8)::8]
         _enumerate(rec, kind, small, small, small, wd=wd, record_first=False)
   return rec.result()
 
@@ -952,7 +959,7 @@ def _shrink(kind, hist, steps, wd):
 def drv_histories_random(tier, seed):
   """Seeded random longer histories (length 3..7), checked after every step."""
   quick = tier == 'quick'
-  n = 220 if quick else 6000
+  n = 180 if quick else 4000
   rec = Recorder(
       'C01', 'tree well-formedness after every step of random histories',
       scope=f'{n} seeded histories per tree (4 trees) of length 3..7 over the '
